@@ -32,6 +32,9 @@ pub struct Case {
     pub node_filter: u32,
     /// edge filter: drop the forward direction of chain i iff bit i is set
     pub edge_filter: u32,
+    /// module i creates its chain endpoints as members of one gate cluster `port[..]` iff bit i is set
+    #[serde(default)]
+    pub cluster_mods: u32,
 }
 
 struct Silent;
@@ -146,9 +149,28 @@ pub fn execute(case: &Case) -> (Vec<Finding>, Obs) {
             sim.node(m.as_str(), Silent);
         }
         let mut reference = Reference { nodes: case.modules.clone(), edges: Vec::new() };
+        // modules whose endpoints are the members of one gate cluster (parallel links then start at gates of one name)
+        let mut ports: Vec<Vec<GateRef>> = vec![Vec::new(); case.modules.len()];
+        for (mi, m) in case.modules.iter().enumerate() {
+            let ends = case.chains.iter().map(|c| usize::from(c.a == mi) + usize::from(c.b == mi)).sum::<usize>();
+            if (case.cluster_mods >> (mi % 32)) & 1 == 1 && ends > 0 {
+                ports[mi] = sim.gates(m.as_str(), "port", ends);
+                ports[mi].reverse();
+            }
+        }
+        // gate path -> (chain, is the `a` end)
+        let mut role: BTreeMap<String, (usize, bool)> = BTreeMap::new();
         for (ci, ch) in case.chains.iter().enumerate() {
-            let ga = sim.gate(case.modules[ch.a].as_str(), &format!("c{ci}a"));
-            let gb = sim.gate(case.modules[ch.b].as_str(), &format!("c{ci}b"));
+            let ga = match ports[ch.a].pop() {
+                Some(g) => g,
+                None => sim.gate(case.modules[ch.a].as_str(), &format!("c{ci}a")),
+            };
+            let gb = match ports[ch.b].pop() {
+                Some(g) => g,
+                None => sim.gate(case.modules[ch.b].as_str(), &format!("c{ci}b")),
+            };
+            role.insert(ga.path().as_str().to_string(), (ci, true));
+            role.insert(gb.path().as_str().to_string(), (ci, false));
             let mut prev = ga.clone();
             for (ti, owner) in ch.transit.iter().enumerate() {
                 let g = sim.gate(case.modules[*owner].as_str(), &format!("c{ci}t{ti}"));
@@ -295,10 +317,9 @@ pub fn execute(case: &Case) -> (Vec<Finding>, Obs) {
         {
             let mut t = sim.topology();
             t.filter_edges(|e| {
-                let name = e.from.gate().name().to_string();
-                // forward direction of chain ci starts at gate "c{ci}a"
-                let ci: usize = name.trim_start_matches('c').trim_end_matches(['a', 'b']).parse().unwrap_or(usize::MAX);
-                keep_e(ci, name.ends_with('a'))
+                // forward direction of chain ci starts at its `a` end
+                let (ci, is_a) = role.get(e.from.gate().path().as_str()).copied().unwrap_or((usize::MAX, false));
+                keep_e(ci, is_a)
             });
             obs.filtered_views += 1;
             let want = reference.edge_set(&all, &keep_e);
@@ -453,7 +474,7 @@ pub fn gen_case(rng: &mut Rng) -> Case {
     }
     chains.truncate(28);
     let loose_gates = (0..rng.usize_below(3)).map(|_| rng.usize_below(n)).collect();
-    Case { modules, chains, loose_gates, node_filter: rng.next_u64() as u32 | u32::from(rng.chance(1, 8)) * u32::MAX, edge_filter: if rng.chance(1, 3) { 0 } else { rng.next_u64() as u32 } }
+    Case { modules, chains, loose_gates, node_filter: rng.next_u64() as u32 | u32::from(rng.chance(1, 8)) * u32::MAX, edge_filter: if rng.chance(1, 3) { 0 } else { rng.next_u64() as u32 }, cluster_mods: if rng.chance(2, 5) { rng.next_u64() as u32 } else { 0 } }
 }
 
 fn case_hash(c: &Case) -> u64 {
@@ -489,6 +510,16 @@ pub fn cmd(args: &Args) -> Report {
             rep.count("graphs_with_16_hop_chains", 1);
         }
         rep.count("chains_total", case.chains.len() as u64);
+        // parallel links that start at members of one gate cluster and end at the same module
+        let clustered = |m: usize| (case.cluster_mods >> (m % 32)) & 1 == 1;
+        let parallel = case.chains.iter().enumerate().any(|(i, c)| {
+            case.chains.iter().skip(i + 1).any(|d| {
+                (clustered(c.a) && ((d.a == c.a && d.b == c.b) || (d.b == c.a && d.a == c.b))) || (clustered(c.b) && ((d.b == c.b && d.a == c.a) || (d.a == c.b && d.b == c.a)))
+            })
+        });
+        if parallel {
+            rep.count("graphs_with_parallel_links_on_a_gate_cluster", 1);
+        }
         if findings.is_empty() && case.modules.len() >= 3 && case.chains.len() >= 2 {
             rep.nontrivial(case_hash(&case));
             if rep.wants_sample() && case.modules.len() <= 4 && case.chains.len() <= 4 {
